@@ -123,7 +123,7 @@ def run_exact(c):
     rec = {"id": c["id"], "kind": "exact", "method": "spline", "argkind": c["argkind"], "pt": pt, "S": S, "raised": raised,
            "obs": {n: q(obs[n], S) for n in ALL},
            "twoBdBdR": q(2.0 * B * obs["dBdR"], S), "twoBdBdZ": q(2.0 * B * obs["dBdZ"], S),
-           "ev": {n: [int(ev[n].numerator), int(ev[n].denominator)] if n in ev else [0, 0] for n in fields_eval.NAMES + fields_eval.FNAMES}}
+           "ev": {n: [int(ev[n].numerator), int(ev[n].denominator)] if n in ev else [0, 0] for n in fields_eval.NAMES + fields_eval.FNAMES + fields_eval.CURLNAMES}}
     return rec
 
 
@@ -153,7 +153,9 @@ def fpol_pair(kind):
 def build(c):
     """the equilibrium object of a case: a stub with the real field functions, or a real TokamakEquilibrium"""
     R, Z = domain(c)
-    f = analytic(c["family"])
+    f0 = analytic(c["family"])
+    amp = float(c.get("amp", 1.0))           # the amplitude of psi is arbitrary (weak poloidal fields, flux in other units)
+    f = (lambda Rg, Zg: amp * f0(Rg, Zg)) if amp != 1.0 else f0
     psi = f(R[:, None], Z[None, :])
     if c.get("eq", "stub") == "stub":
         fp, fpp = fpol_pair(c.get("fpol", "quad"))
@@ -242,12 +244,12 @@ def run_fd(c):
     for k, (a, b) in rel.items():
         m = keep & np.isfinite(a) & np.isfinite(b)
         if k in ("dBdR", "dBdZ"):
-            m &= v["B2"] > 1e-12
+            m &= v["B2"] > 1e-12 * np.max(v["B2"])
         if k in ("f_R", "f_Z"):
             m &= g2 > 1e-10 * np.max(g2)
         sc = scale_div if k == "divB" else max(np.max(np.abs(a[m]), initial=0.0), np.max(np.abs(b[m]), initial=0.0), 1e-300)
         out[k] = {"res": q(np.max(np.abs(a[m] - b[m]), initial=0.0) / sc, 1e9), "n": int(np.sum(m)),
-                  "nonfinite": int(np.sum(keep & ~(np.isfinite(a) & np.isfinite(b)) & (v["B2"] > 1e-12 if k in ("dBdR", "dBdZ") else True)
+                  "nonfinite": int(np.sum(keep & ~(np.isfinite(a) & np.isfinite(b)) & (v["B2"] > 1e-12 * np.max(v["B2"]) if k in ("dBdR", "dBdZ") else True)
                                           & (g2 > 1e-10 * np.max(g2) if k in ("f_R", "f_Z") else True)))}
     # the derived functions against the evaluator applied to the observed base quantities
     with np.errstate(all="ignore"):
@@ -261,11 +263,11 @@ def run_fd(c):
         sc = max(np.max(np.abs(b[m]), initial=0.0), 1e-300)
         alg[n] = {"res": q(np.max(np.abs(a[m] - b[m]), initial=0.0) / sc, 1e12), "n": int(np.sum(m))}
     for n, comp in (("dBdR", "dB2dR"), ("dBdZ", "dB2dZ")):
-        m = keep & (v["B2"] > 1e-12)
+        m = keep & (v["B2"] > 1e-12 * np.max(v["B2"]))
         a, b = 2.0 * np.sqrt(v["B2"]) * v[n], np.asarray(ev[comp], dtype=float) + 0.0 * Rp
         sc = max(np.max(np.abs(b[m]), initial=0.0), 1e-300)
         alg[n] = {"res": q(np.max(np.abs(a[m] - b[m]), initial=0.0) / sc, 1e12), "n": int(np.sum(m))}
-    return {"id": c["id"], "kind": "fd", "method": c["method"], "family": c["family"], "eq": c.get("eq", "stub"), "fpol": c.get("fpol", "quad"),
+    return {"id": c["id"], "kind": "fd", "method": c["method"], "family": c["family"], "eq": c.get("eq", "stub"), "fpol": c.get("fpol", "quad"), "amp": c.get("amp", 1.0),
             "nR": c["nR"], "nZ": c["nZ"], "rel": out, "alg": alg, "npts": int(np.sum(keep))}
 
 
